@@ -65,7 +65,8 @@ def main():
                                timeout=3600)
             dt = time.time() - t0
             want = 1 if m["expect"] == "violation" else 0
-            ok = r.returncode == want
+            ok = r.returncode == want or (m["expect"] == "rare"
+                                          and r.returncode in (0, 1))
             sigs = sorted({w.split("signature=")[1].split()[0]
                            for w in r.stdout.splitlines()
                            if w.startswith("VIOLATION") and "signature=" in w})
